@@ -372,6 +372,9 @@ func runHistory(h history, corr bool, family string) {
 		key = string(j)
 	}
 	rep.Count("history:"+family, key, nontrivial)
+	if nontrivial && (family == "core" || family == "reload-stale" || family == "random") && len(h.Ops) <= 8 {
+		rep.Sample(map[string]interface{}{"family": family, "history": clipHistory(h), "returned": obs}, 5)
+	}
 	if corr {
 		initS := "None"
 		if h.Init != nil {
@@ -594,7 +597,7 @@ func sizingCase(elements, tweak uint32, fprate float64, flags uint32, corr bool)
 	if m.Tweak != tweak || uint32(m.Flags) != flags {
 		rep.Violate("C09:sizing:params", "NewFilter did not store tweak/flags", in)
 	}
-	if len(sizingTable) < 40 {
+	if len(sizingTable) < 60 && rep.Histogram["sizing"]%7 == 1 {
 		sizingTable = append(sizingTable, in)
 	}
 	// the two float->uint32 conversions, re-evaluated with the same expressions (libm and the
